@@ -533,3 +533,9 @@ mod test {
         }
     }
 }
+
+#[cfg(kani)]
+mod verif_kani {
+    use super::*;
+    include!(concat!(env!("LIBTW2_VERIF_HARNESS"), "/huffman_lib.rs"));
+}
